@@ -3,7 +3,7 @@
 (* = key material, p = row id), a second operand object related to X by `shape` (JoinCalls.tla:   *)
 (* X itself, copies / projections / derived tables / plain dicts sharing X's column lists, an     *)
 (* equal table, an unrelated table), and a history of steps on these same objects:                *)
-(*     CallJoin / CallXor / CallLeftJoin   one call plan from JoinCalls!PlanSeq (the outcome      *)
+(*     CallJoin / CallXor / CallLeftJoin   one call plan JoinCalls!PlanAt(i, ..)   (the outcome      *)
 (*                                         register holds what the mechanism model JoinMech       *)
 (*                                         returns; the operands stay as they are)                *)
 (*     Edit                                one key cell of X overwritten in place through the     *)
@@ -48,7 +48,6 @@ Pick(i) == ((Weight(x0) * 5) + (11 * ShapeIx(shape)) + i) % Stride = 0
 
 L == LeftVal(x, yd, shape)
 R == RightVal(x, yd, shape)
-Plans == PlanSeq(L, R)
 
 Init == /\ x0 \in XU /\ x = x0
         /\ shape \in Range(Shapes)
@@ -63,9 +62,9 @@ DoCall(p) == /\ n < MaxSteps /\ PlanOK(p, shape)
              /\ hist' = Record(p)
              /\ (Gen /\ Emit = "each") => PrintT(ToJson(Snapshot(hist')))
              /\ UNCHANGED <<x0, x, yd, shape>>
-CallJoin     == \E i \in 1..Len(Plans) : Plans[i].op = "join" /\ Pick(i) /\ DoCall(Plans[i])
-CallXor      == \E i \in 1..Len(Plans) : Plans[i].op = "xor" /\ Pick(i) /\ DoCall(Plans[i])
-CallLeftJoin == \E i \in 1..Len(Plans) : Plans[i].op = "leftjoin" /\ Pick(i) /\ DoCall(Plans[i])
+CallJoin     == \E i \in 1..NPlans : Pick(i) /\ LET p == PlanAt(i, L, R) IN p.op = "join" /\ DoCall(p)
+CallXor      == \E i \in 1..NPlans : Pick(i) /\ LET p == PlanAt(i, L, R) IN p.op = "xor" /\ DoCall(p)
+CallLeftJoin == \E i \in 1..NPlans : Pick(i) /\ LET p == PlanAt(i, L, R) IN p.op = "leftjoin" /\ DoCall(p)
 \* in-place edit of one key cell of X: dict.__getitem__(X, c)[i - 1] = v
 Edits == {<<c, i, v>> \in {"a", "b"} \X (1..NRows(x)) \X KeyU : v # x.rows[i][c]}
 EditNo(e) == (IF e[1] = "a" THEN 0 ELSE 1) + (2 * e[2]) + (5 * KIx(e[3]))
@@ -89,18 +88,18 @@ MechRefinesLaw == last.kind = "call" =>
 KPs == {k \in 1..Len(KeyPlans) : Len(KeyPlans[k].lk) > 0}
 MatchedRows(k) == {p[1] : p \in Pairs(L, R, KeyPlans[k].lk, KeyPlans[k].rk)}
 \* left join = x*y + x/y: every row of x lies in exactly one of the matched part and xor
-Decomposition == \A k \in KPs :
+Decomposition == last.kind # "call" => \A k \in KPs :
     LET xr == XorRows(L, R, KeyPlans[k].lk, KeyPlans[k].rk) IN
     /\ Len(xr) + Cardinality(MatchedRows(k)) = NRows(L)
     /\ \A i \in 1..NRows(L) : (i \in MatchedRows(k)) # (\E j \in 1..Len(xr) : xr[j] = L.rows[i])      \* p identifies the row
     /\ Len(LeftJoinRows(L, R, KeyPlans[k].lk, KeyPlans[k].rk, "none")) = Cardinality(Pairs(L, R, KeyPlans[k].lk, KeyPlans[k].rk)) + Len(xr)
 \* a table joined with itself on ONE key expression: every row finds itself, xor is empty
-SelfJoinReflexive == \A k \in KPs :
+SelfJoinReflexive == last.kind # "call" => \A k \in KPs :
     (R = L /\ KeyPlans[k].lk = KeyPlans[k].rk) =>
         /\ \A i \in 1..NRows(L) : <<i, i>> \in Pairs(L, R, KeyPlans[k].lk, KeyPlans[k].rk)
         /\ XorRows(L, R, KeyPlans[k].lk, KeyPlans[k].rk) = <<>>
 \* ... on two key expressions: the pairs of (lk, rk) are the transposed pairs of (rk, lk)
-SelfJoinTranspose == \A k \in KPs :
+SelfJoinTranspose == last.kind # "call" => \A k \in KPs :
     R = L => Pairs(L, R, KeyPlans[k].lk, KeyPlans[k].rk) = {<<p[2], p[1]>> : p \in Pairs(L, R, KeyPlans[k].rk, KeyPlans[k].lk)}
 \* sharing the column lists is not observable by a call: same result as for the independently built equal table
 SharingInvisible == (SharesLists(shape) /\ shape \notin {"project", "derive"}) => R = L
